@@ -212,6 +212,29 @@ def walk(root, view="pickler"):
     return heap, root_ref, info
 
 
+def modulo_short_strings(canon):
+    """A canonical form (driver JSON) with every string of at most one character inlined by value, the remaining cells
+    renumbered in the same order.  CPython keeps ONE object per 1-character (latin-1) string and for "": the unpickler
+    always hands out those singletons, while a live graph may hold other objects with the same text (`"".join(("", "A"))`
+    makes one).  Identity of such strings is therefore NOT preserved by a real pickle round trip (and means nothing:
+    strings are immutable); graphs are compared modulo it.  Pure projection: equal canonical forms stay equal."""
+    if not isinstance(canon, dict):
+        return canon
+    cells = canon["cells"]
+    short = [c[0][0] == "str" and len(c[0][1]) <= 1 for c in cells]
+    new_index, n = [], 0
+    for sh in short:
+        new_index.append(n)
+        if not sh:
+            n += 1
+
+    def ref(k):
+        if isinstance(k, int):
+            return ["str", cells[k][0][1]] if short[k] else new_index[k]
+        return k
+    return {"root": ref(canon["root"]), "cells": [[c[0], [ref(k) for k in c[1]]] for c, sh in zip(cells, short) if not sh]}
+
+
 def is_atom(cell):
     t = cell[0][0]
     return t in ("none", "bool", "int", "float") or (t == "tuple" and not cell[1])
